@@ -313,6 +313,13 @@ def c04_cells(tier="quick"):
                 {"id": "s1", "workers": ["w0", "w1"], "n": 1, "kind": "exact"}], requirements=[
                 {"task": "t0", "resource": "s0"}, {"task": "t1", "resource": "s1"}, {"task": "t2", "resource": "w0"}],
             constraints=[dict({"id": "c", "kind": kind, "resource": "w0"}, **extra)])))
+    # an unscheduled optional task and a worker left unselected both park a busy interval in the past on w0
+    for kind, extra in (("ResourceNonDelay", {}), ("ResourceTasksDistance", {"distance": 1, "mode": "min"})):
+        cells.append((f"{kind}.unscheduled_and_unselected", base(
+            5, [fx("t0", 1), fx("t1", 1, optional=True), fx("t2", 2)], workers=W, selections=[
+                {"id": "s0", "workers": ["w0", "w1"], "n": 1, "kind": "exact"}], requirements=[
+                {"task": "t0", "resource": "w0"}, {"task": "t1", "resource": "w0"}, {"task": "t2", "resource": "s0"}],
+            constraints=[dict({"id": "c", "kind": kind, "resource": "w0"}, **extra)])))
     # SameWorkers / DistinctWorkers
     W3 = [{"name": "w0"}, {"name": "w1"}, {"name": "w2"}]
     for kind in ("SameWorkers", "DistinctWorkers"):
